@@ -75,6 +75,7 @@ void ds_sub_lifo(void) {
     quota = ops / T;
     if (quota < 1) quota = 1;
     mpmc_lifo_init(&lifo);
+    if (vp_rand(&rng) & 1) lifo.data.counter = (uintptr_t)0x100000000ULL - 50;  // ABA counter crosses 2^32 during the round
     int i;
     for (i = 0; i < T; ++i) vp_log_reset(&ds_w[i].log);
     ds_run_round(T, lifo_round);
@@ -173,6 +174,7 @@ void ds_sub_dist(void) {
     atomic_store(&taken_total, 0);
     atomic_store(&done_pushers, 0);
     dist_fifo_init(&dfifo);
+    if (vp_rand(&rng) & 1) dfifo.head.pointer.counter = (uintptr_t)0x100000000ULL - 50;
     int i;
     for (i = 0; i < DS_MAX_WORKERS; ++i) atomic_store(&mailbox[i], NULL);
     for (i = 0; i <= poppers; ++i) vp_log_reset(&ds_w[i].log);
